@@ -76,6 +76,9 @@ func rCurrentNode(id string) func(w *World, r *Report) {
 				if fieldOfAddr(x).Name() == "mapKeysToLower" || flowsOnlyIntoField(x, "MapKeysToLower") {
 					continue // the root-wide map-key setting, handed to the record being saved
 				}
+				if !isBaselineField(fieldOfAddr(x)) {
+					continue // a setting that a new feature added: which level it is read from is that feature's contract
+				}
 				n++
 				ru.Bad("root-use/"+fieldOfAddr(x).Name(), w.IPos(x), "parseCLIArgs reads or writes "+fieldOfAddr(x).Name()+" of the root node instead of the current node: after a command name was seen the setting / table / list of the wrong level is used")
 			case ssa.CallInstruction:
@@ -521,6 +524,8 @@ var failureScope = map[string]struct {
 		"text that does not convert, or that Save refuses, always ends in a parse error", 8},
 	"C02": {"R02.16", []string{"(*option.Option).Save", "getoptions.parseCLIArgs"},
 		"an element that does not convert (where a value is mandatory or attached) always ends in a parse error", 6},
+	"C05": {"R05.17", []string{"getoptions.parseCLIArgs", "(*getoptions.GetOpt).Parse"},
+		"an ambiguous abbreviation always ends in an error", 2},
 	"C11": {"R11.18", []string{"(*getoptions.GetOpt).Dispatch", "(*getoptions.GetOpt).Parse", "getoptions.checkRequired"},
 		"a missing required option always ends in an error", 3},
 	"C16": {"R16.16", []string{"(*dag.Graph).DepthFirstSort", "dag.visit", "(*dag.Graph).Run", "(*dag.Graph).Validate", "(*dag.Graph).addTask", "(*dag.Graph).retrieveOrAddVertex",
@@ -1707,3 +1712,391 @@ func init() {
 		subRule(w, r, rC13Readiness, "R14.15", "the dependents of a failed or skip-parents task are never offered: a vertex is offered only when none of its dependencies is pending or in progress, whatever else happened in the run (same obligations as C13 R13.2)", 4)
 	})
 }
+
+// rOptionKeys (R06.21 / R05.18 / R10.18): the keys of a node's option table are declared spellings only. The reference
+// callers of AddChildOption (the definers, the Alias modifier) are what they are; any other caller must register
+// under a spelling it was given as a string parameter (a new definer) or an element of a variadic string parameter (a
+// new alias-like modifier) - never under a key it computes (the first letter of the help option's name, a
+// normalised name): such a key can collide with, or shadow in a child table, a name the program declared.
+func rOptionKeys(id string) func(w *World, r *Report) {
+	return func(w *World, r *Report) {
+		ru := r.Rule(id, "option tables hold declared spellings only: every caller of AddChildOption outside the reference ones registers under one of its own string parameters (or an element of a variadic one), never under a computed key", 0)
+		const add = "(*getoptions.programTree).AddChildOption"
+		n := 0
+		for _, fn := range w.Funcs {
+			for _, c := range callsTo(fn, add) {
+				root := fn
+				for root.Parent() != nil {
+					root = root.Parent()
+				}
+				if baselineCalls[short(root)+"\t"+add] {
+					continue
+				}
+				n++
+				key := c.Common().Args[1]
+				good := false
+				switch x := key.(type) {
+				case *ssa.Parameter:
+					good = true
+				case *ssa.FreeVar:
+					good = true
+					_ = x
+				case *ssa.UnOp:
+					// element of a variadic parameter, or a captured parameter
+					switch y := x.X.(type) {
+					case *ssa.IndexAddr:
+						_, isP := y.X.(*ssa.Parameter)
+						_, isF := y.X.(*ssa.FreeVar)
+						if u, ok := y.X.(*ssa.UnOp); ok {
+							_, isF = u.X.(*ssa.FreeVar)
+						}
+						good = isP || isF
+					case *ssa.FreeVar:
+						good = true
+					}
+				case *ssa.Extract:
+					// range over a variadic parameter
+					if nx, ok := x.Tuple.(*ssa.Next); ok {
+						if rg, ok := nx.Iter.(*ssa.Range); ok {
+							_, good = rg.X.(*ssa.Parameter)
+						}
+					}
+				}
+				ru.Check(good, "AddChildOption/key/"+short(fn), w.IPos(c), "registered under a spelling the caller was given", "an option is registered under a key that "+short(root)+" computes (not a name or alias the program declared): it can collide with a declared spelling, and copied into the commands it replaces theirs")
+			}
+		}
+		if n == 0 {
+			ru.Present("AddChildOption/callers", "-", "only the reference callers register options")
+		}
+	}
+}
+
+// rRequireOrderFirst (R09.13): on the no-match edge of the parser the require-order stop comes before anything that
+// can end the parse: with requireOrder set, no return is reachable from that edge before the bulk copy of the tail.
+func rRequireOrderFirst(id string) func(w *World, r *Report) {
+	return func(w *World, r *Report) {
+		ru := r.Rule(id, "an unknown option is the stop point under require-order, whatever else could be said about it: from the no-match edge, with requireOrder set, every path reaches the bulk copy of the tail before any return", 1)
+		m := parserOrFail(w, ru)
+		if m == nil {
+			return
+		}
+		iff, k, _ := m.noMatchIf()
+		if iff == nil {
+			ru.Undecided("no-match-test", w.Pos(m.fn.Pos()), "test len(matches) == 0 on the matcher result not found")
+			return
+		}
+		cache := map[*ssa.Function]*helperSum{}
+		bulk := map[ssa.Instruction]bool{}
+		for _, e := range m.effects() {
+			if e.Kind == effHelper {
+				if _, ex := m.basicDisposition(e.Instr, cache); ex {
+					bulk[e.Instr] = true
+				}
+			}
+		}
+		env := triEnv{}
+		eachInstr(m.fn, func(in ssa.Instruction) {
+			if ld, ok := in.(*ssa.UnOp); ok {
+				if _, isRO := loadOfFieldNamed(ld, "requireOrder"); isRO {
+					env[ld] = vsVal{c: constant.MakeBool(true)}
+				}
+			}
+		})
+		stop := func(in ssa.Instruction) bool { return bulk[in] }
+		seen, ok := m.ig.reachVSInit(m.ig.edgeStart(iff.Block(), k), stop, m.normalEdgeOK, env)
+		if !ok {
+			ru.Undecided("no-match/require-order-first", w.IPos(iff), "path search exhausted")
+			return
+		}
+		bad := ""
+		for i, sn := range seen {
+			if ret, isRet := m.ig.instrs[i].(*ssa.Return); isRet && sn {
+				bad = w.IPos(ret)
+			}
+		}
+		ru.Check(bad == "", "no-match/require-order-first", w.IPos(iff), "the tail is copied before anything else can end the parse", "under require-order an unknown option can end the parse (return at "+bad+") before the tail is handed back: a `did you mean` error, a hook, a limit - the wrapped command line is lost")
+	}
+}
+
+func init() {
+	for prop, id := range map[string]string{"C06": "R06.21", "C05": "R05.18", "C10": "R10.18"} {
+		addRules(prop, rOptionKeys(id))
+	}
+	addRules("C09", rRequireOrderFirst("R09.13"))
+	addRules("C11", rSplitterCalls("R11.22"))
+	addRules("C12", func(w *World, r *Report) {
+		subRule(w, r, rC01Splitter, "R12.14", "the value read from the command line is the text that was typed: the tokeniser cuts name and attached value out of the token by submatch / one leading separator / per-rune split only (same obligations as C01 R01.2)", 5)
+	})
+}
+
+// rOutputOnce (R15.11): a task's buffered output reaches the writer in one piece, when the attempt is over. The graph's
+// output writer (Graph.bufferWriter) is read only behind the call of the task's function in the goroutine that runs
+// the task - or in a function all of whose static callers are such sites. A writer object that flushes from its own
+// Write method (a size limit, a timer) interleaves pieces of one task's output with another's.
+func rOutputOnce(id string) func(w *World, r *Report) {
+	return func(w *World, r *Report) {
+		ru := r.Rule(id, "buffered output is written once per attempt: every read of Graph.bufferWriter is behind the call of Task.Fn in the task goroutine (or in a function called only from such places)", 1)
+		calls := taskFnCalls(w)
+		if len(calls) == 0 {
+			ru.Undecided("call-sites", "-", "no Task.Fn call site in package dag")
+			return
+		}
+		taskFn := calls[0].Parent()
+		ig := buildIG(taskFn)
+		before := ig.reachFromE([]int{0}, func(in ssa.Instruction) bool { return in == ssa.Instruction(calls[0]) }, nil)
+		// okSite: the instruction runs only after an attempt, in the task goroutine
+		var okSite func(in ssa.Instruction, depth int) bool
+		okSite = func(in ssa.Instruction, depth int) bool {
+			fn := in.Parent()
+			if fn == taskFn {
+				return !before[ig.idx[in]]
+			}
+			if depth > 3 {
+				return false
+			}
+			// every static caller of fn must be an ok site; a function reachable some other way (interface method,
+			// function value) is not
+			n := 0
+			for _, g := range w.Funcs {
+				for _, c := range allCalls(g) {
+					if c.Common().StaticCallee() == fn {
+						n++
+						if !okSite(c, depth+1) {
+							return false
+						}
+					}
+				}
+			}
+			if n == 0 {
+				return false
+			}
+			// a method that satisfies io.Writer & co. can be called by anyone holding the value
+			if fn.Signature.Recv() != nil {
+				switch fn.Name() {
+				case "Write", "WriteString", "WriteByte", "Close", "Sync":
+					return false
+				}
+			}
+			return true
+		}
+		n := 0
+		for _, fn := range w.Funcs {
+			if fn.Pkg == nil || shortName(fn.Pkg.Pkg.Path()) != "dag" {
+				continue
+			}
+			eachInstr(fn, func(in ssa.Instruction) {
+				ld, ok := in.(*ssa.UnOp)
+				if !ok {
+					return
+				}
+				if _, isBW := loadOfFieldNamed(ld, "bufferWriter"); !isBW {
+					return
+				}
+				n++
+				ru.Check(okSite(in, 0), "output/after-attempt", w.IPos(in), "the writer is used only when an attempt is over", "the graph's output writer is used (in "+short(fn)+") at a point that is not behind the task's call in its goroutine: output can be flushed while the task is still writing - the pieces of one task's output are no longer contiguous")
+			})
+		}
+		if n == 0 {
+			ru.Bad("output/after-attempt", w.Pos(taskFn.Pos()), "the graph's output writer is never used")
+		}
+	}
+}
+
+func init() { addRules("C15", rOutputOnce("R15.11")) }
+
+// rParseErrorSources (R17.19): completion offers what the parser accepts - so a real parse fails only for what the
+// parser itself reports, for a missing required option, or under the unknown-option policy. Every return of Parse with
+// an error hands back the error of parseCLIArgs, the error of the required gate, or the policy's fmt.Errorf; a further
+// validation step in Parse (mutually exclusive options, a limit) rejects command lines whose every word was offered.
+func rParseErrorSources(id string) func(w *World, r *Report) {
+	return func(w *World, r *Report) {
+		ru := r.Rule(id, "what completion offers, Parse accepts: Parse returns an error only from parseCLIArgs, from the required gate, or from the unknown-option policy (no further validation that completion knows nothing about)", 3)
+		fn := w.Fn(nParse)
+		if fn == nil {
+			ru.Undecided("anchor", "-", "Parse not found")
+			return
+		}
+		var classify func(v ssa.Value, depth int) string
+		classify = func(v ssa.Value, depth int) string {
+			if depth > 4 {
+				return ""
+			}
+			switch x := v.(type) {
+			case *ssa.Const:
+				if x.Value == nil {
+					return "nil"
+				}
+			case *ssa.Extract:
+				if c, ok := x.Tuple.(*ssa.Call); ok && calleeName(c) == nParseCLI {
+					return "parser"
+				}
+			case *ssa.Call:
+				switch calleeName(x) {
+				case "getoptions.checkRequired":
+					return "required gate"
+				case "fmt.Errorf":
+					if len(x.Call.Args) > 0 {
+						if ld, ok := x.Call.Args[0].(*ssa.UnOp); ok {
+							if g, ok := ld.X.(*ssa.Global); ok && g.Name() == "MessageOnUnknown" {
+								return "unknown-option policy"
+							}
+						}
+					}
+					// a wrapped error of one of the sources
+					if len(x.Call.Args) > 1 {
+						els, _, _ := elementsOf(x.Call.Args[1], map[ssa.Value]bool{})
+						for _, e := range els {
+							if mi, ok := e.(*ssa.MakeInterface); ok {
+								e = mi.X
+							}
+							if c := classify(e, depth+1); c != "" && c != "nil" {
+								return c
+							}
+						}
+					}
+				default:
+					// an inline required gate: option.CheckRequired / a helper's result
+					if strings.HasSuffix(calleeName(x), ".CheckRequired") {
+						return "required gate"
+					}
+					if calleeName(x) == "(error).Error" || strings.HasSuffix(calleeName(x), ".Error") {
+						if len(x.Call.Args) > 0 {
+							return classify(x.Call.Args[0], depth+1)
+						}
+						if x.Call.IsInvoke() {
+							return classify(x.Call.Value, depth+1)
+						}
+					}
+				}
+			case *ssa.Phi:
+				out := ""
+				for _, e := range x.Edges {
+					c := classify(e, depth+1)
+					if c == "" {
+						return ""
+					}
+					if c != "nil" {
+						out = c
+					}
+				}
+				if out == "" {
+					out = "nil"
+				}
+				return out
+			case *ssa.MakeInterface:
+				return classify(x.X, depth+1)
+			}
+			return ""
+		}
+		n := 0
+		eachInstr(fn, func(in ssa.Instruction) {
+			ret, ok := in.(*ssa.Return)
+			if !ok || len(ret.Results) < 2 {
+				return
+			}
+			src := classify(ret.Results[len(ret.Results)-1], 0)
+			if src == "nil" {
+				return
+			}
+			n++
+			ru.Check(src != "", "Parse/error-source", w.IPos(ret), "error of the "+src, "Parse can fail for a reason that is neither the parser's, nor a missing required option, nor the unknown-option policy: a command line assembled from offered completions is refused")
+		})
+		if n == 0 {
+			ru.Bad("Parse/error-source", w.Pos(fn.Pos()), "Parse never returns an error")
+		}
+	}
+}
+
+func init() {
+	addRules("C17", rParseErrorSources("R17.19"))
+	addRules("C10", rSplitterCalls("R10.19"))
+}
+
+// rEveryDependencyAnEdge (R16.24): a declared dependency becomes an edge of the graph - so that a cycle, a
+// self-dependency included, is found by the cycle check and reported as ErrorGraphHasCycle. In TaskDependsOn the only
+// returns inside the loop over the dependencies are the reference ones: a vertex could not be retrieved (the error
+// of retrieveOrAddVertex is not nil), or the edge exists already (an ID of vertex.Children equals the dependency's).
+func rEveryDependencyAnEdge(id string) func(w *World, r *Report) {
+	return func(w *World, r *Report) {
+		ru := r.Rule(id, "every declared dependency is recorded as an edge: TaskDependsOn leaves the loop over the dependencies early only when a vertex cannot be retrieved (a nil task, an error of a call) or the edge is a duplicate", 2)
+		fn := w.Fn("(*dag.Graph).TaskDependsOn")
+		if fn == nil {
+			ru.Undecided("anchor", "-", "TaskDependsOn not found")
+			return
+		}
+		isRetrieveErr := func(v ssa.Value) bool {
+			ex, ok := v.(*ssa.Extract)
+			if !ok {
+				return false
+			}
+			c, ok := ex.Tuple.(*ssa.Call)
+			return ok && strings.HasSuffix(calleeName(c), ".retrieveOrAddVertex")
+		}
+		isChildID := func(v ssa.Value) bool {
+			base, ok := loadOfFieldNamed(v, "ID")
+			if !ok {
+				return false
+			}
+			ld, ok := base.(*ssa.UnOp)
+			if !ok {
+				return false
+			}
+			ia, ok := ld.X.(*ssa.IndexAddr)
+			if !ok {
+				return false
+			}
+			_, isCh := loadOfFieldNamed(ia.X, "Children")
+			return isCh
+		}
+		n := 0
+		eachInstr(fn, func(in ssa.Instruction) {
+			ret, ok := in.(*ssa.Return)
+			if !ok {
+				return
+			}
+			inBody := false
+			for _, h := range loopHeaders(fn) {
+				loop := naturalLoop(h)
+				for _, sc := range h.Succs {
+					if loop[sc] && sc.Dominates(ret.Block()) {
+						inBody = true
+					}
+				}
+			}
+			if !inBody {
+				return
+			}
+			good := false
+			for _, f := range factsAt(ret.Block()) {
+				if f.Y == nil {
+					continue
+				}
+				if f.Op == token.NEQ && isNilConst(f.Y) && isRetrieveErr(f.X) {
+					good = true
+				}
+				// the retrieval written out in place: a nil task, or an error of the registration it falls back to
+				if f.Op == token.NEQ && isNilConst(f.Y) && types.Identical(f.X.Type(), types.Universe.Lookup("error").Type()) {
+					switch x := f.X.(type) {
+					case *ssa.Call:
+						good = true
+					case *ssa.Extract:
+						_, good = x.Tuple.(*ssa.Call)
+					}
+				}
+				if f.Op == token.EQL && isNilConst(f.Y) && typeString(f.X.Type()) == "*dag.Task" {
+					good = true
+				}
+				if f.Op == token.EQL && (isChildID(f.X) || isChildID(f.Y)) {
+					good = true
+				}
+			}
+			n++
+			ru.Check(good, "TaskDependsOn/early-return", w.IPos(ret), "retrieval error or duplicate edge", "TaskDependsOn gives up on a dependency for a reason other than a retrieval error or a duplicate: the edge is never recorded, so a cycle through it (a task depending on itself, say) is not seen by the cycle check and is not reported as ErrorGraphHasCycle")
+		})
+		if n == 0 {
+			ru.Bad("TaskDependsOn/early-return", w.Pos(fn.Pos()), "no error path found in TaskDependsOn")
+		}
+	}
+}
+
+func init() { addRules("C16", rEveryDependencyAnEdge("R16.24")) }
